@@ -108,6 +108,55 @@ def _extract_exec_inner_command(tokens: list[str]) -> list[str] | None:
         return None  # No -- separator
 
 
+# Flags whose value is the next word (kubectl options, plus the common per-command ones)
+FLAGS_WITH_ARG = frozenset(
+    {
+        "-n",
+        "--namespace",
+        "-l",
+        "--selector",
+        "-o",
+        "--output",
+        "--context",
+        "--cluster",
+        "-f",
+        "--filename",
+        "--as",
+        "--as-group",
+        "--as-uid",
+        "--cache-dir",
+        "--certificate-authority",
+        "--client-certificate",
+        "--client-key",
+        "--kubeconfig",
+        "--log-flush-frequency",
+        "--password",
+        "--profile",
+        "--profile-output",
+        "--request-timeout",
+        "-s",
+        "--server",
+        "--tls-server-name",
+        "--token",
+        "--user",
+        "--username",
+        "-v",
+        "--v",
+        "--vmodule",
+    }
+)
+
+
+def _first_operand(tokens: list[str], start: int) -> int | None:
+    """Index of the first word from start that is neither a flag nor a flag's value."""
+    i = start
+    while i < len(tokens):
+        if not tokens[i].startswith("-"):
+            return i
+        i += 2 if tokens[i] in FLAGS_WITH_ARG else 1
+    return None
+
+
 def classify(ctx: HandlerContext) -> Classification:
     """Classify kubectl command."""
     tokens = ctx.tokens
@@ -116,53 +165,22 @@ def classify(ctx: HandlerContext) -> Classification:
         return Classification("ask", description=base)
 
     # Find the action (skip global flags)
-    action = None
-    action_idx = 1
-
-    while action_idx < len(tokens):
-        token = tokens[action_idx]
-
-        if token.startswith("-"):
-            if token in {
-                "-n",
-                "--namespace",
-                "-l",
-                "--selector",
-                "-o",
-                "--output",
-                "--context",
-                "--cluster",
-                "-f",
-                "--filename",
-            }:
-                action_idx += 2
-                continue
-            action_idx += 1
-            continue
-
-        action = token
-        break
-
-    if not action:
+    action_idx = _first_operand(tokens, 1)
+    if action_idx is None:
         return Classification("ask", description=base)
+    action = tokens[action_idx]
 
-    rest = tokens[action_idx + 1 :] if action_idx + 1 < len(tokens) else []
+    rest = tokens[action_idx + 1 :]
     desc = f"{base} {action}"
 
     # Check for subcommands first
-    if action in SAFE_SUBCOMMANDS and rest:
-        for token in rest:
-            if not token.startswith("-"):
-                if token in SAFE_SUBCOMMANDS[action]:
-                    return Classification("allow", description=f"{desc} {token}")
-                break
-
-    if action in UNSAFE_SUBCOMMANDS and rest:
-        for token in rest:
-            if not token.startswith("-"):
-                if token in UNSAFE_SUBCOMMANDS[action]:
-                    return Classification("ask", description=f"{desc} {token}")
-                break
+    sub_idx = _first_operand(rest, 0)
+    if sub_idx is not None:
+        token = rest[sub_idx]
+        if token in SAFE_SUBCOMMANDS.get(action, ()):
+            return Classification("allow", description=f"{desc} {token}")
+        if token in UNSAFE_SUBCOMMANDS.get(action, ()):
+            return Classification("ask", description=f"{desc} {token}")
 
     # Simple safe actions
     if action in SAFE_ACTIONS:
